@@ -111,7 +111,7 @@ def run(ctx):
     if mc["violated"]:
         raise vlib.Infra("design-level spec (with the F30 repair) violates %s; spec must be repaired (see %s)" % (
             mc["violated"], mc["outfile"]))
-    ctx.add_mc("Epochs exhaustive (%s blocks, 2 changes)" % ctx.pick("10", "26"), mc)
+    ctx.add_mc("Epochs exhaustive (%s blocks, 2 changes)" % ctx.pick("8", "16"), mc)
     sim = vlib.tlc_sim(ctx, "Epochs", "Epochs_sim.cfg", num=ctx.pick(60, 600), depth=60, timeout=ctx.pick(600, 1800))
     behs = sim["behaviours"]
     ctx.cov["evaluations"] = len(behs)
@@ -120,7 +120,7 @@ def run(ctx):
                        "single-parameter change proposals at random blocks); non-trivial = at least 2 changes; distinct by full action list")
     ctx.sample(behs[0])
     ctx.assumptions += ["TLC bounded constants (specs/Epochs_mc*.cfg: EpochBlocks in {2,3,5}, EpochsToSave in {1,2,3}, <= 2 changes, "
-                        "10/26 blocks exhaustively; 3 changes / 40 blocks in simulation)",
+                        "8/16 blocks exhaustively; 3 changes / 40 blocks in simulation)",
                         "param changes arrive through the gov param-change handler (one parameter per proposal)",
                         "each replay starts after a warm-up that moved the genesis parameters (20 x 10) out of the memory window",
                         "EpochsToSave >= 1 (the parameter has no validation in lava; 0 is not explored)"]
